@@ -89,6 +89,15 @@ func (g *vfGen) gen(depth int) *vfNode {
 }
 
 func (g *vfGen) where(src *vfNode) *vfNode {
+	n := g.where1(src)
+	// mostly keep restrictions that select something, so the operators above see rows
+	for try := 0; try < 2 && len(n.rel.rows) == 0 && len(src.rel.rows) > 0 && g.r.IntN(4) > 0; try++ {
+		n = g.where1(src)
+	}
+	return n
+}
+
+func (g *vfGen) where1(src *vfNode) *vfNode {
 	eg := g.exprGen(src)
 	nterms := 1
 	if x := g.r.IntN(10); x >= 8 {
